@@ -2,6 +2,7 @@
 closes everything, failed rendezvous never kills the client (client/lib peers.go, webrtc.go)."""
 import itertools
 import os
+import threading
 import vlib
 
 AREA = "peers"
@@ -70,6 +71,10 @@ def peers_prop(line, impl, model):
         elif op == "e":
             end_started += 1
         if op in ("e", "ew"):
+            if t == "ret-early" or (t == "ret" and gated):
+                return ("end-returned-before-peers-closed|an End call returned while the rendezvous attempt was still in flight or a peer "
+                        "caught for this collection was still open (every End call, also a second overlapping one, may return only once "
+                        "the collection is over) (%s)" % where)
             if t == "ret":
                 end_returned = True
             if t == "blocked" and not gated:
@@ -131,13 +136,66 @@ def connect_prop(line, impl, model):
     return None
 
 
+CLOSE_WHAT = {
+    "fail": "the broker has no proxies", "good": "one live peer held", "hold": "a rendezvous attempt in flight",
+    "holdgood": "a peer being collected", "none": "healthy connection", "sess": "the smux session had died before",
+    "pconn": "the packet conn had been closed before", "stream": "the stream had been closed before",
+    "c": "Close once", "cc": "Close twice", "c2": "two overlapping Close calls",
+}
+
+
+def close_prop(line, impl, model):
+    """C15 on SnowflakeConn.Close through the exported API: returns in bounded time, closes every peer,
+    stops the rendezvous attempts."""
+    a = line.split(" ")
+    specs = a[2].split(",")
+    if impl.startswith("!panic") or impl == "!died":
+        return "driver-panic|implementation panicked: " + impl[:200]
+    res = impl.split(",")
+    if len(res) != len(specs):
+        return None
+    for spec, r in zip(specs, res):
+        sp = spec.split(".")
+        where = "scenario %s: Max=%s, %s; %s; %s" % (spec, sp[0], CLOSE_WHAT.get(sp[1], sp[1]), CLOSE_WHAT.get(sp[2], sp[2]), CLOSE_WHAT.get(sp[3], sp[3]))
+        if r == "panic":
+            return "close-panic|Dial/Close panicked (%s)" % where
+        if r.startswith("setup="):
+            continue     # the scenario could not be set up: left to the comparison with the model
+        f = dict(p.split("=", 1) for p in r.split(";") if "=" in p)
+        try:
+            ret, n = [int(x) for x in f["ret"].split("/")]
+            inflight, melt, opn, after, late = [int(f[k]) for k in ("inflight", "melt", "open", "after", "late")]
+        except (KeyError, ValueError):
+            continue
+        if ret < n:
+            return "close-did-not-return|%d of %d Close calls did not return within 15 s although the rendezvous attempt in flight was over after 1.5 s (%s)" % (n - ret, n, where)
+        if late > 0 or after > 1:
+            return ("rendezvous-continues-after-close|the broker was polled %d more time(s) after Close had returned (%d later than 5 s after it): "
+                    "the connect loop was not stopped (%s)" % (after, late, where))
+        if opn > 0:
+            return "close-leaves-peer-open|Close returned but %d peer(s) are still open (%s)" % (opn, where)
+        if inflight > 0:
+            return "close-returned-with-rendezvous-in-flight|a Close call returned while the broker was still holding the rendezvous attempt: Close must wait for the End in progress (%s)" % where
+        if melt != 1:
+            return "close-leaves-collection-running|Close returned but Melted() is not closed (%s)" % where
+    return None
+
+
+def any_prop(line, impl, model):
+    if line.startswith("peers "):
+        return peers_prop(line, impl, model)
+    if line.startswith("closeconn "):
+        return close_prop(line, impl, model)
+    return connect_prop(line, impl, model)
+
+
 def prop(line, impl, model):
-    r = peers_prop(line, impl, model) if line.startswith("peers ") else connect_prop(line, impl, model)
+    r = any_prop(line, impl, model)
     return r.split("|", 1)[1] if r else None
 
 
 def key_of(line, impl, model):
-    r = peers_prop(line, impl, model) if line.startswith("peers ") else connect_prop(line, impl, model)
+    r = any_prop(line, impl, model)
     return r.split("|", 1)[0] if r else "prop"
 
 
@@ -156,6 +214,9 @@ DIRECTED = [
     (2, "cb,e,g+,ew,p,n"),                            # End while a peer is being collected (Catch succeeds)
     (2, "cb,e,g-,ew,p,n"),                            # ... Catch fails
     (2, "cb,e,e,g+,ew,ew,e"),                         # two Close calls while a peer is being collected
+    (2, "c+,p,cb,e,e,g+,ew,ew"),                      # ... with a peer in use: the second End must wait for the first
+    (1, "c+,p,x0,cb,e,e,e,g-,ew,ew,ew"),
+    (3, "c+,c+,cb,e,n,e,g+,ew,ew,p"),
     (1, "cb,e,g+,ew,c+,p"),
     (2, "c+,cb,e,x0,g+,ew"),
     (2, "p,e,pw,p"),                                  # Pop blocked, End wakes it up with nil
@@ -291,19 +352,63 @@ def gen_connect(ctx):
     return lines, kinds
 
 
+CLOSE_QUICK = [
+    # Max.broker.pre.closes — each scenario watches the broker for 2 x ReconnectTimeout (10 s) after Close: one batch, run concurrently
+    "1.fail.none.c",        # healthy connection, no proxies, Close once
+    "1.fail.sess.cc",       # the smux session died first (keep-alive timeout, server gone), Close twice
+    "1.fail.pconn.c",       # the packet conn was closed first
+    "2.fail.stream.c",      # the stream was closed first
+    "2.good.none.c2",       # a live peer held, two overlapping Close calls
+    "2.good.sess.c",        # a live peer held, session dead
+    "1.hold.none.c2",       # Close (twice, overlapping) while a rendezvous attempt is in flight
+    "2.hold.sess.c",
+    "2.holdgood.none.c2",   # Close while a peer is being collected
+    "1.holdgood.sess.cc",
+]
+
+
+def gen_close(ctx):
+    """batches of scenarios for `closeconn batch`; a batch takes ~30 s whatever its size"""
+    if ctx.tier != "thorough":
+        return [CLOSE_QUICK], ["close-api-directed"]
+    allsc = ["%d.%s.%s.%s" % (m, k, p, c) for m in (1, 2, 3) for k in ("fail", "good", "hold", "holdgood")
+             for p in ("none", "sess", "pconn", "stream") for c in ("c", "cc", "c2")]
+    rest = [s for s in allsc if s not in CLOSE_QUICK]
+    ctx.rng.shuffle(rest)
+    batches, kinds = [CLOSE_QUICK], ["close-api-directed"]
+    for i in range(0, len(rest), 24):
+        batches.append(rest[i:i + 24])
+        kinds.append("close-api-product")
+    return batches, kinds
+
+
 def run(ctx):
     os.environ["VERIF_DRIVER"] = "1"
     exe = vlib.go_test_build("./client/lib", name="c15_client_lib.test")
     ctx.trusted += [
         "scripted Tongue / RendezvousMethod and the watchdog in harness/overlay/client/lib/zz_verif_c15_test.go (blocked = not returned within the watchdog: 300 ms, 1 s for directed End scenarios)",
         "pion/webrtc, BrokerChannel.Negotiate, messages and util packages are exercised, not verified; connect is modelled as a sequence of library calls with ok/error outcomes",
+        "closeconn: scripted broker (httptest, counts the polls of /client, may hold the first one) and in-process pion answerer in the same driver; smux/kcp-go/RedialPacketConn are exercised, not verified; Close bound 15 s, polls watched for 2 x ReconnectTimeout + 2 s after Close",
     ]
     ctx.assumptions += [
-        "model = coq/Model/Peers.v (interleaving machine, V1 = code with proposed-fixes/C15-*.diff) and coq/Model/Connect.v; tie = correspondence on scripted schedules run to quiescence after each op",
+        "model = coq/Model/Peers.v (interleaving machine, V1 = code with proposed-fixes/C15-*.diff), coq/Model/Connect.v and coq/Model/CloseConn.v (SnowflakeConn.Close over the Peers machine); tie = correspondence on scripted schedules run to quiescence after each op, and on Dial/Close scenarios through the exported API",
         "one collector thread (connectLoop) per Peers; WebRTCPeer.Close and library calls return",
         "scripts whose outcome depends on the Go scheduler (flagged by the model adapter) are not compared",
         "failures of CreateDataChannel/CreateOffer/SetLocalDescription are covered by the theorem but cannot be provoked from outside pion, so the correspondence does not exercise them",
     ]
+    # The close scenarios mostly wait (two ReconnectTimeouts each): the driver is started on them now, in the
+    # background, and its answers are compared at the end.
+    batches, b_kinds = gen_close(ctx)
+    b_lines = ["closeconn batch " + ",".join(b) for b in batches]
+    box = {}
+
+    def close_worker():
+        try:
+            box["res"] = vlib.run_impl(exe, b_lines, args=TEST_ARGS)
+        except Exception as e:      # a timeout of the driver: reported as a driver crash below
+            box["res"] = (1, [], str(e))
+    th = threading.Thread(target=close_worker)
+    th.start()
     lines, kinds = gen_peers(ctx)
     # directed scenarios first; if they already fail, the bulk is cut short (a defect that makes calls
     # block costs one watchdog period per op, which would otherwise take very long)
@@ -316,6 +421,19 @@ def run(ctx):
     ctx.correspond(exe, rest_l, rest_k, label="peers", prop=prop, key_of=key_of, impl_args=TEST_ARGS)
     c_lines, c_kinds = gen_connect(ctx)
     ctx.correspond(exe, c_lines, c_kinds, label="connect", prop=prop, key_of=key_of, impl_args=TEST_ARGS, crosscheck=20)
+    th.join()
+    ctx.extra["close_api_scenarios"] = sum(len(b) for b in batches)
+    rc, b_out, b_err = box["res"]
+    os.makedirs(vlib.TMP, exist_ok=True)
+    stored = os.path.join(vlib.TMP, "c15_close_%d.out" % os.getpid())
+    with open(stored, "w") as fh:
+        fh.write("".join(l + "\n" for l in b_out))
+    if rc != 0:
+        ctx.violation("driver-crash", "implementation driver died on the close scenarios (rc=%s): %s" % (rc, b_err[-600:]),
+                      dict(label="close-api", case=None, stderr=b_err[-2000:]))
+    # the stored answers of the driver are what is compared with the model here
+    ctx.correspond("/bin/cat", b_lines, b_kinds, label="close-api", prop=prop, key_of=key_of, impl_args=[stored], crosscheck=4)
+    os.remove(stored)
     # keep the replay file readable: at most 3 failing inputs per key, shortest first
     per_key, kept = {}, []
     for v in sorted(ctx.violations, key=lambda v: len(str(v["replay"].get("case")))):
